@@ -412,6 +412,57 @@ VARIANTS = [
     dict(property="C04", name="getter-early-return", file=SYN, expect="FftFixedOut", old="    fn input_frames_next(&self) -> usize {\n        self.frames_needed\n    }", new="    fn input_frames_next(&self) -> usize {\n        if self.saved_frames >= self.chunk_size_out {\n            return self.fft_size_in;\n        }\n        self.frames_needed\n    }"),
     dict(property="C05", name="shift-only-when-input-needed", file=SINC, expect="R-C05-shift/SincFixedOut", old="        for buf in self.buffer.iter_mut() {\n            buf.copy_within(\n                self.current_buffer_fill..self.current_buffer_fill + 2 * sinc_len,\n                0,\n            );\n        }\n        self.current_buffer_fill = self.needed_input_size;",
          new="        if self.needed_input_size > 0 {\n            for buf in self.buffer.iter_mut() {\n                buf.copy_within(\n                    self.current_buffer_fill..self.current_buffer_fill + 2 * sinc_len,\n                    0,\n                );\n            }\n        }\n        self.current_buffer_fill = self.needed_input_size;"),
+    # ---------------- names that mean two things / whole-chain recognisers (added after round 6; each of these passed every check before)
+    dict(property="C14", name="make-sincs-rebinds-npoints", file=SINCRS, expect="R-C14-model/FftFixed",
+         old="    let totpoints = npoints * factor;", new="    let npoints = 8 * ((npoints + 7) / 8);\n    let totpoints = npoints * factor;"),
+    dict(property="C01", name="make-sincs-assigns-mut-param", file=SINCRS, expect="are assigned in the body",
+         edits=[("    npoints: usize,\n    factor: usize,", "    mut npoints: usize,\n    factor: usize,"),
+                ("    let totpoints = npoints * factor;", "    npoints = 8 * ((npoints + 7) / 8);\n    let totpoints = npoints * factor;")]),
+    dict(property="C13", name="cfg-test-only-guard", file=LIB, expect="build-mode-cfg",
+         old="    if wave_in.len() != channels {\n        return Err(ResampleError::WrongNumberOfInputChannels {",
+         new="    #[cfg(test)]\n    if wave_in.len() != channels {\n        return Err(ResampleError::WrongNumberOfInputChannels {"),
+    dict(property="C12", name="cfg-macro-in-setter", file=FAST, count=4, expect="build-mode-cfg",
+         old="            self.target_ratio = new_ratio;\n", new="            self.target_ratio = if cfg!(test) { new_ratio } else { new_ratio * 0.5 };\n"),
+    dict(property="C08", name="t-macro-narrows-to-f32", file=FAST, expect="R-control/macro/t",
+         old="        T::coerce($expression)\n", new="        T::coerce($expression as f32)\n"),
+    dict(property="C09", name="trace-macro-evaluates-arguments", file=LIB, expect="R-control/macro/trace",
+         old="macro_rules! trace { ($($x:tt)*) => (\n    #[cfg(feature = \"log\")] {\n        log::trace!($($x)*)\n    }\n) }",
+         new="macro_rules! trace { ($($x:tt)*) => (\n    #[cfg(feature = \"log\")] {\n        log::trace!($($x)*)\n    }\n    #[cfg(not(feature = \"log\"))] {\n        let _ = format_args!($($x)*);\n    }\n) }"),
+    dict(property="C04", name="override-default-allocate", file=FAST, count=2, expect="overrides-default",
+         old="    fn output_delay(&self) -> usize {",
+         new="    fn output_buffer_allocate(&self, filled: bool) -> Vec<Vec<T>> {\n        crate::make_buffer(self.nbr_channels(), self.output_frames_next(), filled)\n    }\n\n    fn output_delay(&self) -> usize {"),
+    dict(property="C04", name="inherent-method-shadows-getter", file=FAST, expect="inherent-shadows-trait-method",
+         old="impl<T> Resampler<T> for FastFixedOut<T>",
+         new="impl<T> FastFixedOut<T>\nwhere\n    T: Sample,\n{\n    pub fn input_frames_next(&self) -> usize {\n        self.needed_input_size + 1\n    }\n}\n\nimpl<T> Resampler<T> for FastFixedOut<T>"),
+    dict(property="C03", name="local-const-shadows-module-const", file=FAST, count=2, expect="local-item",
+         old="        validate_ratios(resample_ratio, max_resample_ratio_relative)?;\n",
+         new="        validate_ratios(resample_ratio, max_resample_ratio_relative)?;\n        const POLYNOMIAL_LEN_U: usize = 8 + 0;\n"),
+    dict(property="C07", name="renaming-import", file=SYN, expect="R-control/use/",
+         old="use num_integer as integer;", new="use num_integer as integer;\n#[allow(unused_imports)]\nuse std::cmp::max as min_of;"),
+    dict(property="C07", name="second-div-ceil", file=FAST, expect="helper/div_ceil/definitions",
+         old="const POLYNOMIAL_LEN_I: isize = 8;\n", new="const POLYNOMIAL_LEN_I: isize = 8;\n\n#[allow(dead_code)]\nfn div_ceil(a: usize, b: usize) -> usize {\n    a / b + 1\n}\n"),
+    dict(property="C16", name="partial-filter-before-zip", file=LIB, expect="prefix-copy",
+         old="for (ch_input, ch_padded) in input.iter().zip(wave_in_padded.iter_mut()) {",
+         new="for (ch_input, ch_padded) in input\n                .iter()\n                .filter(|c| !c.as_ref().is_empty())\n                .zip(wave_in_padded.iter_mut())\n            {"),
+    dict(property="C11", name="load-loop-skips-channel-0", file=FAST, expect="R-C11",
+         old="        for (chan, active) in self.channel_mask.iter().enumerate() {\n            if *active {\n                self.buffer[chan][2 * POLYNOMIAL_LEN_U..2 * POLYNOMIAL_LEN_U + self.chunk_size]",
+         new="        for (chan, active) in self.channel_mask.iter().enumerate().skip(1) {\n            if *active {\n                self.buffer[chan][2 * POLYNOMIAL_LEN_U..2 * POLYNOMIAL_LEN_U + self.chunk_size]"),
+    dict(property="C05", name="shift-loop-skips-channel-0", file=FAST, expect="history shift",
+         old="        for buf in self.buffer.iter_mut() {\n            buf.copy_within(\n                self.current_buffer_fill", new="        for buf in self.buffer.iter_mut().skip(1) {\n            buf.copy_within(\n                self.current_buffer_fill"),
+    dict(property="C07", name="fft-unit-loop-skips-block", file=SYN, expect="unit loop",
+         old="                    .take(nbr_chunks_ready)\n", new="                    .take(nbr_chunks_ready)\n                    .skip(1)\n"),
+    dict(property="C05", name="fft-append-skips-sample", file=SYN, expect="element copy loop",
+         old="                for (input, buffer) in wave_in[chan].as_ref().iter().zip(", new="                for (input, buffer) in wave_in[chan].as_ref().iter().skip(1).zip("),
+    dict(property="C11", name="frame-channel-loops-skip-channel-0", file=FAST, count=10, expect="FastFixed",
+         old="                    for (chan, active) in self.channel_mask.iter().enumerate() {", new="                    for (chan, active) in self.channel_mask.iter().enumerate().skip(1) {"),
+    dict(property="C17", name="coerce-f64-via-f32", file="src/sample.rs", expect="R-C17-coerce",
+         old="impl CoerceFrom<f64> for f64 {\n    fn coerce_from(value: f64) -> Self {\n        value\n", new="impl CoerceFrom<f64> for f64 {\n    fn coerce_from(value: f64) -> Self {\n        value as f32 as f64\n"),
+    dict(property="C17", name="sample-sin-f64-via-f32", file="src/sample.rs", expect="twin-impls",
+         old="        f64::sin(self)\n", new="        f32::sin(self as f32) as f64\n"),
+    dict(property="C17", name="pi-f64-from-f32", file="src/sample.rs", expect="twin-impls/const/PI",
+         old="const PI: Self = std::f64::consts::PI;", new="const PI: Self = std::f32::consts::PI as f64;"),
+    dict(property="C07", name="div-ceil-plus-one", file=SYN, expect="R-C07-exact",
+         old="numerator / denominator + usize::from(numerator % denominator != 0)", new="numerator / denominator + 1"),
 ]
 
 
